@@ -35,6 +35,7 @@ type c03Case struct {
 var c03Templates = []string{
 	"%e & 'x'", "'x' & %e", "%e & %e", "%spare & 'x'", "%one & 'x'", "%one & %e",
 	"%spare.where($this != 'b')", "%spare.where($this = 'a')", "%shared1.where($this = 's1')", "%names.where(use != 'official')", "%spare.exists($this = 'a')", "%spare.select($this.where($this = 'a'))", "%spare.exclude(%one)", "%spare.where($this != 'b').count() + %spare.count()", "%names.where(family.exists().not())",
+	"%nested", "%nested.count()", "%nested.first()", "%nested.tail()", "%nested.where(true)", "%nested.select($this)", "%nested.distinct()", "%nested & 'x'", "%nested.exclude(%one)", "%spare.count() + 1",
 	"%spare.tail()", "%spare.skip(1)", "%spare.take(2)", "%spare.first()", "%spare.where($this.exists())", "%spare.select($this)", "%spare.distinct()", "%spare.exclude(%shared1)", "%spare.intersect(%shared2)",
 	"%shared1.exclude(%shared2)", "%shared1.where(true)", "%shared1 = %shared2", "%shared1.tail().tail()", "%shared1.select($this & 'y')", "%shared1.children()", "%names.descendants()", "%names.select(given)", "%names.where(use = 'official').given",
 	"%names.first().given.tail()", "%pat.name.given", "%pat.children().descendants()", "%pat.extension('http://example.org/a').value", "%pat.managingOrganization.reference", "%pat.contained", "%name.given & 'x'", "%names.exclude(%pat.name)", "%names.intersect(%pat.name)",
@@ -307,6 +308,13 @@ func c03Run(ctx *Ctx, c c03Case) {
 	// values back into the caller's collection
 	vars["givens"] = mk("%givens", []any{pat.Name[0].Given[0], pat.Name[1].Given[0], &dtpb.String{Value: "zz"}}, c.Spare)
 	vars["prims"] = mk("%prims", []any{&dtpb.String{Value: "a"}, &dtpb.Integer{Value: 1}, &dtpb.Boolean{Value: true}, &dtpb.Code{Value: "official"}, &dtpb.Decimal{Value: "1.0"}, pat.BirthDate}, c.Spare)
+
+	// collections nested in a variable's collection (accepted by the option): the outer and the
+	// inner backing arrays are the caller's
+	inner1 := mk("%nested(inner 1)", []any{system.String("n1")}, c.Spare)
+	inner0 := mk("%nested(empty inner)", nil, c.Spare)
+	inner2 := mk("%nested(inner 2)", []any{system.Integer(7), pat.Name[0]}, c.Spare)
+	vars["nested"] = mk("%nested", []any{system.String("n0"), inner1, system.String("n2"), inner0, inner2, system.String("n3")}, c.Spare)
 
 	e, cerr, pan, _ := compileGuarded(c.Src)
 	if pan != "" || cerr != nil || e == nil {
